@@ -127,13 +127,19 @@ PROPS["C10"] = dict(
           "paths/queries/track suffixes/IPv6, every non-empty ordered subset of {Basic, Digest-MD5, Digest-SHA-256}); challenge by "
           "GenerateWWWAuthenticate, credentials by auth.Sender, verdict by auth.Verify; unperturbed => accepted; exactly one of user, password, "
           "realm, nonce, method, algorithm, URL, enabled-scheme changed => rejected (realm/nonce/method/URL only bind Digest credentials); the "
-          "documented SETUP base-URL relaxation => accepted. Non-trivial: a perturbed case or a password containing ':' or a space. Distinct by case hash."),
+          "documented SETUP base-URL relaxation => accepted. (e2e) a live server whose application demands generated credentials, with every "
+          "non-empty ordered subset of the three methods enabled; 2..10 requests (DESCRIBE, ANNOUNCE, SETUP, OPTIONS) on raw connections, each "
+          "without credentials, with the right ones (computed by auth.Sender from the challenge the server issued), or wrong in one way (password, "
+          "user, nonce, realm, URL, method; an unparsable header counts as none): no credentials => 401 with one challenge per enabled method and "
+          "the connection stays usable; right => never 401 and the connection stays; wrong => 401 and the server ends the connection. Non-trivial: "
+          "(unit) a perturbed case or a password containing ':' or a space; (e2e) >=1 accepted and >=1 rejected request. Distinct by case hash."),
     assumptions=[
         "which scheme the client picked is read off the Authorization header it produced, not re-derived from the library's preference order",
         "Basic credentials carry no realm/nonce/method/URL, so perturbing those leaves a Basic request valid by construction of the scheme",
     ],
     jobs=lambda tier: [
         seeded("unit", "hdr", "^TestC10Unit$", 6000 if tier == "quick" else 40000, 1 if tier == "quick" else 8, timeout=1800),
+        seeded("e2e", "e2e", "^TestC10E2E$", 600 if tier == "quick" else 5000, 4 if tier == "quick" else 8, timeout=1800),
     ],
 )
 
